@@ -115,4 +115,11 @@ PROPS = {
         trusted_base=TB_COMMON[:1] + TB_CONV + ["Spec/Identity.lean: octet layouts of TS 24.501 9.11.3.4 / TS 24.008 10.5.1.13 and text formats of TS 23.003 (transcriptions); the Go-side oracle holds a second, independent reading of the same figures"],
         rule="PLMNs both ways (quick: boundary + 2500 random; thorough: all 10^5 + 10^6), AMF ids (field boundaries, random; thorough: every set id x pointer, all 2^16 low octets) both ways incl. upper-case and invalid texts, GUTI text->wire->text and wire->text->wire (valid, one-character corruptions, length mutations, high set ids), SUCI (every routing-indicator length, null/non-null schemes, every last scheme-output octet), IMEI/IMEISV (15/16 and other digit counts), 5G-S-TMSI, MobileIdentity5GS getters on the same contents; non-trivial = distinct op answered with a value",
     ),
+    "C13": dict(
+        level="proof", modules=["NasVerif.Props.C13"], parts=[],
+        streams=[("conv13", 300, 2000)], oracle="C13",
+        trusted_base=TB_COMMON[:1] + TB_CONV + ["Spec/Lists.lean: decoders written from TS 24.501 9.11.2.8 / 9.11.3.37 / 9.11.3.46 / 9.11.3.9 / 9.11.3.49 / 9.11.3.29-30 (transcriptions); the Go-side oracle holds a second, independent set of decoders"],
+        rule="every SST with/without SD; requested NSSAI lists of 0..12 entries over the five element forms (homogeneous and mixed), truncations, corrupted and all 256 head length octets; rejected NSSAI 0..8 + 0..8 entries; TAI lists of 1..20 entries x five PLMN-mix modes (one PLMN, all different, same MCC / different MNC, 2- vs 3-digit MNC, last entry differs); LADN with DNN lengths 0..255; service-area lists of 0..20 TACs x both restriction types; LADN indications valid and mutated; non-trivial = distinct op answered with a value",
+        assumptions=["lists outside the property's ranges (17+ TAIs, 0 TACs, contents over 255 octets) are compared between model and implementation but not judged by the oracle"],
+    ),
 }
